@@ -19,6 +19,9 @@
 (*               add-package seen (sourcepath leaks into later parses);    *)
 (*   "format"    the composite parser remembering which format parsed the  *)
 (*               last file and trying it first on the next one;            *)
+(*   "sections"  the list of section names shared by all parser objects:   *)
+(*               once another tool has built its own parsers for its own   *)
+(*               sections, pydoctor reads those sections too;              *)
 (*   "defaults"  one ConfigParser object reused and clear()ed: the         *)
 (*               [DEFAULT] section of an INI file survives and supplies    *)
 (*               values to every later INI file.                           *)
@@ -32,7 +35,7 @@ EXTENDS Naturals, Sequences, FiniteSets, TLC, Json
 
 CONSTANTS Inputs,   \* subset of the names below
           MaxLen,
-          Memory    \* "none" (the code) | "packages" | "format" | "defaults"
+          Memory    \* "none" (the code) | "packages" | "format" | "defaults" | "sections"
 
 \* what one input says, on its own
 Pkgs(i) == CASE i \in {"pkgToml", "pkgCli"} -> <<"dir1">>
@@ -40,17 +43,24 @@ Pkgs(i) == CASE i \in {"pkgToml", "pkgCli"} -> <<"dir1">>
              [] OTHER -> <<>>
 Positional(i) == i = "srcPos"                       \* a SOURCEPATH argument on the command line
 Name(i) == CASE i = "nameCfg" -> "FromCfg"
+             [] i = "foreignBoth" -> "Demo2"
              [] i = "defaultCfg" -> "FromDefault"    \* [DEFAULT] project-name = ... applies to the sections of ITS file (INI)
              [] i = "nameTomlComment" -> "Demo"      \* project-name = "Demo"  # comment   (TOML; as INI the comment is text)
              [] OTHER -> "-"
-Format(i) == CASE i \in {"pkgCfg", "nameCfg", "privIni", "defaultCfg"} -> "ini"
+\* verbose / quiet counts the input's OWN pydoctor settings give.  "foreignBoth": setup.cfg has [flake8] verbose = 2
+\* next to [tool:pydoctor] project-name = Demo2, pyproject.toml has only [tool.black] quiet = true: none of pydoctor's
+\* business.  "otherParsers": another tool builds IniConfigParser(["flake8"]) and TomlConfigParser(["tool.black"])
+\* in this process, then pydoctor parses an empty command line.
+Verb(i)  == CASE i = "verboseToml" -> 2 [] i = "defaultCfg" -> 1 [] OTHER -> 0
+Quiet(i) == 0
+Format(i) == CASE i \in {"pkgCfg", "nameCfg", "privIni", "defaultCfg", "foreignBoth"} -> "ini"
                [] i \in {"pkgToml", "nameTomlComment", "verboseToml"} -> "toml"
                [] OTHER -> "-"                       \* no file
 
 VARIABLES hist, mem, out
 vars == <<hist, mem, out>>
 
-NoMem == [pkgs |-> <<>>, fmt |-> "-", dflt |-> "-"]
+NoMem == [pkgs |-> <<>>, fmt |-> "-", dflt |-> "-", foreign |-> FALSE]
 Init == hist = <<>> /\ out = <<>> /\ mem = NoMem
 
 Parse(i) ==
@@ -60,15 +70,19 @@ Parse(i) ==
             ELSE Name(i)
   IN /\ Len(hist) < MaxLen
      /\ hist' = Append(hist, i)
-     /\ out' = Append(out, [i |-> i, pkgs |-> pk, name |-> nm])
+     /\ out' = Append(out, [i |-> i, pkgs |-> pk, name |-> nm,
+                             verb  |-> IF Memory = "sections" /\ mem.foreign /\ i = "foreignBoth" THEN 2 ELSE Verb(i),
+                             quiet |-> IF Memory = "sections" /\ mem.foreign /\ i = "foreignBoth" THEN 1 ELSE Quiet(i)])
      /\ mem' = [pkgs |-> IF Memory = "packages" /\ ~Positional(i) THEN pk ELSE mem.pkgs,
                 fmt  |-> IF Memory = "format" /\ Format(i) # "-" THEN Format(i) ELSE mem.fmt,
-                dflt |-> IF Memory = "defaults" /\ i = "defaultCfg" THEN "FromDefault" ELSE mem.dflt]
+                dflt |-> IF Memory = "defaults" /\ i = "defaultCfg" THEN "FromDefault" ELSE mem.dflt,
+                foreign |-> mem.foreign \/ (Memory = "sections" /\ i = "otherParsers")]
 Next == \E i \in Inputs : Parse(i)
 Spec == Init /\ [][Next]_vars
 
 \* the property: every parse gives what its own inputs say
-Independent == \A k \in 1..Len(out) : out[k].pkgs = Pkgs(out[k].i) /\ out[k].name = Name(out[k].i)
+Independent == \A k \in 1..Len(out) : /\ out[k].pkgs = Pkgs(out[k].i) /\ out[k].name = Name(out[k].i)
+                                       /\ out[k].verb = Verb(out[k].i) /\ out[k].quiet = Quiet(out[k].i)
 \* the code keeps nothing
 NoMemory == Memory = "none" => mem = NoMem
 
